@@ -37,6 +37,7 @@ var accelShapes = []string{
 	`[abc]\d`, `\d+x`, `[a-c]+`, `a|b|c`, `ab|.c`, `a|.`, `(?:a|b)c|d`, `a?b`, `(a)?b`, `(?=ab)a.`, `(?=a)\w+`, `(?!b)\w`, `(?<=a)b`,
 	`\W?[^a]`, `(\W|)[^a]`, `\D?[^1]`, `\S?[^ ]`, `[\x00-\x60]?[^b]`,
 	`(?((a))\1)-`, `(?((a))\1|)-`, `(a)?(?(1)\1|)b`, `(?(?=a)\w\w|)-`,
+	`[ae]*(?:\s*x| )b[cd]`, `[xy]*(?:abc|b)c(d)`, `[xy]*(?:[a ]{1,3}\s+|q)b(d)`, `[ab]*(?:\s+c|cd?)d\w`, `\w*(?:ab|a)b(c)`,
 	`[ac]*[ab]{1,2}a`, `a*[ab]{1,2}[a-]`, `[ac]+[ab]{1,3}b[ab]{1,2}a`, `\w*[ab]{2,3}b`, `(?>a+)?ab`, `(?>a*)?aab`, `(?>a{1,2}){2}`, `(?<=(?:a*ba){2})`, `(?<=(?:a*$){2})`,
 	`(a*c?)b\1`, `(\w+,)\1`, `(a+b?)\1c`, `(?<w>\w+ )\k<w>`, `([ab]+c?)d\1`,
 	`abab`, `abca\d`, `abab\w`, `aba`, `abcab`, `(?i)abab`,
